@@ -3,8 +3,12 @@
 Gen/DurationOps.v contains
   * `py_divide_and_round`            — the module function `_divide_and_round`, translated whole (integer arguments);
   * `py_Duration_to_microseconds`    — `Duration._to_microseconds`, translated whole;
+  * `py_timedelta_to_microseconds_duration` / `py_timedelta_to_microseconds_plain` — the module function `_timedelta_to_microseconds`
+    (the divisor of // / % divmod), translated once per operand class with its `isinstance(delta, Duration)` test resolved:
+    for a Duration (record `dur`) and for a PLAIN datetime.timedelta, which the translated code sees as its normal form
+    `ptd` = (days, seconds, microseconds) (the hand model passes `Spec.TdFloat.td_norm` of its microseconds);
   * `py_Duration_<op>_<kind>_<slot>` — for every operator method and every `isinstance(other, <kind>)` branch, each argument of the
-    `self.__class__(...)` call (and each scalar result `cast(T, expr)`, each `r = ... % ...` / `q, r = divmod(...)`) whose
+    `self.__class__(...)` call (and each scalar result `expr` / `cast(T, expr)`, each `r = ... % ...` / `q, r = divmod(...)`) whose
     expression is pure integer arithmetic, translated with the translator.  Arguments that are float expressions must be one of the
     HAND expressions below (hand-modelled over SpecFloat in Model/DurationOps.v); anything else fails closed;
   * `py_return_table`                — (method, operand kind, result kind) obtained by abstract interpretation of the
@@ -29,9 +33,18 @@ HAND = {
     "self.total_seconds() - other.total_seconds()",
     "self._total * other",
     "_divide_and_round(self._months, other)",       # float branch of __truediv__: divmod(int, float)
-    "usec / other._to_microseconds()",              # int / int true division -> float
+    "usec / _timedelta_to_microseconds(other)",     # int / int true division -> float
 }
 ALIASES = {"__radd__": "__add__", "__rmul__": "__mul__", "__div__": "__floordiv__"}
+TD_US = "_timedelta_to_microseconds"       # module function: microseconds of either a Duration or a plain timedelta
+# how the translated code sees a plain datetime.timedelta: its public attributes, nothing else
+PTD_PRELUDE = ("(* a PLAIN datetime.timedelta as the translated code sees it: its normal form (days, seconds, microseconds)\n"
+               "   (Model/DurationOps.v passes Spec.TdFloat.td_norm of the microseconds it holds) *)\n"
+               "Definition ptd : Type := (Z * Z * Z)%type.\n"
+               "Definition ptd_days (t : ptd) : Z := fst (fst t).\n"
+               "Definition ptd_seconds (t : ptd) : Z := snd (fst t).\n"
+               "Definition ptd_micro (t : ptd) : Z := snd t.\n")
+PTD_ATTRS = {"days": ("ptd_days", P.Z), "seconds": ("ptd_seconds", P.Z), "microseconds": ("ptd_micro", P.Z)}
 
 
 def _isinstance_test(test):
@@ -64,6 +77,8 @@ class OpWalker:
             self.tr.env["other"] = P.Z
         elif kind == "duration":
             self.tr.env["other"] = "dur"
+        elif kind == "timedelta":
+            self.tr.env["other"] = "ptd"
         self.lets = []            # (name, coq expr) in order
         self.params = [("self", "dur")] + ([("other", self.tr.env["other"])] if "other" in self.tr.env else [])
 
@@ -115,6 +130,12 @@ class OpWalker:
         if isinstance(v, ast.Call) and ast.unparse(v.func) == "cast" and len(v.args) == 2 and isinstance(v.args[0], ast.Name) and v.args[0].id in ("int", "float"):
             self.emit("value", v.args[1])
             return v.args[0].id
+        if isinstance(v, ast.BinOp) and isinstance(v.op, (ast.FloorDiv, ast.Div)):
+            # a bare scalar result: int // int is an int (must translate), int / int a float (must be a declared HAND expression)
+            is_int = self.emit("value", v)
+            if is_int != isinstance(v.op, ast.FloorDiv):
+                self.fail(node, "scalar result: `//` must be integer arithmetic and `/` a hand-modelled float expression")
+            return "int" if is_int else "float"
         if (isinstance(v, ast.Tuple) and len(v.elts) == 2 and isinstance(v.elts[1], ast.Call) and ast.unparse(v.elts[1].func) == "self.__class__"):
             self.emit("quotient", v.elts[0])
             self.ctor(v.elts[1])
@@ -172,6 +193,63 @@ class OpWalker:
         return None
 
 
+def _fork(ctx, attrs=None, methods=None):
+    """A context that shares constants with ctx and has its own function / attribute / method tables."""
+    c = P.Ctx()
+    c.consts = ctx.consts
+    c.funcs = dict(ctx.funcs)
+    c.attrs = dict(ctx.attrs if attrs is None else attrs)
+    c.methods = dict(ctx.methods if methods is None else methods)
+    return c
+
+
+def _translate_td_us(sub, tree, out):
+    """`_timedelta_to_microseconds(delta)` translated once per class of `delta`, the `isinstance(delta, Duration)` tests resolved
+    statically: delta : Duration sees the record `dur` and Duration's methods; a plain timedelta sees only days / seconds /
+    microseconds (`ptd`), so that any other attribute or method on that path fails closed.
+    Returns {operand kind: context in which a call of the function resolves to the matching translation}."""
+    fn = P.find_function(tree, TD_US)
+    if len(fn.args.args) != 1 or fn.args.vararg or fn.args.kwarg or fn.args.kwonlyargs or fn.args.defaults:
+        raise P.Unsupported(f"{TD_US}: expected exactly one parameter")
+    param = fn.args.args[0].arg
+
+    def specialise(stmts, is_duration):
+        body = []
+        for s in stmts:
+            if isinstance(s, ast.Expr) and isinstance(s.value, ast.Constant):
+                continue
+            if isinstance(s, ast.If):
+                t = s.test
+                ok = (isinstance(t, ast.Call) and isinstance(t.func, ast.Name) and t.func.id == "isinstance" and len(t.args) == 2
+                      and not t.keywords and isinstance(t.args[0], ast.Name) and t.args[0].id == param
+                      and isinstance(t.args[1], ast.Name) and t.args[1].id == "Duration")
+                if not ok:
+                    raise P.Unsupported(f"{TD_US} line {s.lineno}: may branch only on isinstance({param}, Duration): {ast.unparse(t)[:80]}")
+                taken = specialise(s.body if is_duration else s.orelse, is_duration)
+                body += taken
+                if taken and isinstance(taken[-1], ast.Return):
+                    return body
+                continue
+            body.append(s)
+            if isinstance(s, ast.Return):
+                return body
+        return body
+
+    ctxs = {}
+    for kind, is_dur, ty, c in (("duration", True, "dur", _fork(sub)),
+                                ("timedelta", False, "ptd", _fork(sub, attrs=PTD_ATTRS, methods={}))):
+        f2 = ast.FunctionDef(name=fn.name, args=fn.args, body=specialise(fn.body, is_dur), decorator_list=[], returns=fn.returns, lineno=fn.lineno)
+        name = f"py_timedelta_to_microseconds_{'duration' if is_dur else 'plain'}"
+        text, _argt, rett, monad = P.FunTr(c, f2, name, argtypes={param: ty}).translate()
+        if rett != P.Z or monad is not None:
+            raise P.Unsupported(f"{TD_US} [{kind}]: not a total integer function")
+        out.append(f"(* translated from src/pendulum/duration.py :: {TD_US}, {param} : {'Duration' if is_dur else 'plain timedelta'} *)\n" + text)
+        user = _fork(sub)          # the operator methods: Duration's private attributes / methods on `self` (and on a Duration `other`)
+        user.funcs[TD_US] = (name, [ty], P.Z, None)
+        ctxs[kind] = user
+    return ctxs
+
+
 def gen_duration_ops(ctx: P.Ctx):
     path = src("duration.py")
     tree = ast.parse(open(path).read())
@@ -183,6 +261,8 @@ def gen_duration_ops(ctx: P.Ctx):
     P.translate_function(sub, path, "Duration._to_microseconds", coq_name="py_Duration_to_microseconds", self_type="dur")
     sub.methods["_to_microseconds"] = ("py_Duration_to_microseconds", P.Z, None)
     out = list(sub.out)
+    out.append(PTD_PRELUDE)
+    kind_ctx = _translate_td_us(sub, tree, out)
     cls = next((n for n in tree.body if isinstance(n, ast.ClassDef) and n.name == "Duration"), None)
     if cls is None:
         raise P.Unsupported("class Duration not found")
@@ -210,7 +290,7 @@ def gen_duration_ops(ctx: P.Ctx):
                 raise P.Unsupported("__neg__ does not return self.__class__(...)")
             continue
         for kind in KINDS:
-            w = OpWalker(sub, fn, kind, out, hand_seen)
+            w = OpWalker(kind_ctx.get(kind, sub), fn, kind, out, hand_seen)
             r = w.walk(fn.body)
             if r is None:
                 raise P.Unsupported(f"Duration.{m} falls off the end for other : {kind}")
